@@ -2578,7 +2578,31 @@ func (e *Engine) cleanup() error {
 		}
 	}
 
-	return e.cleanupTempTSMFiles()
+	if err := e.cleanupTempTSMFiles(); err != nil {
+		return err
+	}
+	return e.cleanupOrphanTombstones()
+}
+
+// cleanupOrphanTombstones removes tombstone files whose TSM file no longer exists.  A TSM file
+// is unlinked before its tombstone file, so a crash between the two leaves the tombstone behind.
+// It must not survive: when the shard has no TSM files left the generation counter starts over,
+// a later file gets the same name and the stale tombstones would hide its (acknowledged) points.
+func (e *Engine) cleanupOrphanTombstones() error {
+	files, err := filepath.Glob(filepath.Join(e.path, fmt.Sprintf("*.%s", TombstoneFileExtension)))
+	if err != nil {
+		return fmt.Errorf("error getting tombstone files: %s", err.Error())
+	}
+
+	for _, f := range files {
+		tsm := strings.TrimSuffix(f, TombstoneFileExtension) + TSMFileExtension
+		if _, err := os.Stat(tsm); os.IsNotExist(err) {
+			if err := os.Remove(f); err != nil {
+				return fmt.Errorf("error removing orphaned tombstone file: %v", err)
+			}
+		}
+	}
+	return nil
 }
 
 func (e *Engine) cleanupTempTSMFiles() error {
